@@ -53,14 +53,16 @@ type IRtmp2MpegtsRemuxerObserver interface {
 type Rtmp2MpegtsRemuxer struct {
 	uk string
 
-	observer        IRtmp2MpegtsRemuxerObserver
-	filter          *rtmp2MpegtsFilter
-	videoOut        []byte // Annexb
-	spspps          []byte // Annexb 也可能是vps+sps+pps
-	ascCtx          *aac.AscContext
-	audioCc         uint8
-	videoCc         uint8
-	timestampFilter Rtmp2MpegtsTimestampFilter
+	observer IRtmp2MpegtsRemuxerObserver
+	filter   *rtmp2MpegtsFilter
+	videoOut []byte // Annexb
+	spspps   []byte // Annexb 也可能是vps+sps+pps
+	// 当前生效的参数集。流中单独更新其中一个（比如只发一个新的pps）时，用来重新生成spspps
+	curVps, curSps, curPps []byte
+	ascCtx                 *aac.AscContext
+	audioCc                uint8
+	videoCc                uint8
+	timestampFilter        Rtmp2MpegtsTimestampFilter
 
 	// audioCacheFrames: 缓存音频packet数据，注意，可能包含多个音频packet
 	//
@@ -189,6 +191,22 @@ func (s *Rtmp2MpegtsRemuxer) onPop(msg base.RtmpMsg) {
 
 // ---------------------------------------------------------------------------------------------------------------------
 
+// rebuildSpspps 用当前生效的参数集重新生成关键帧前追加的spspps
+func (s *Rtmp2MpegtsRemuxer) rebuildSpspps(isHevc bool) {
+	if len(s.curSps) == 0 || len(s.curPps) == 0 || (isHevc && len(s.curVps) == 0) {
+		return
+	}
+	s.spspps = s.spspps[0:0]
+	if isHevc {
+		s.spspps = append(s.spspps, avc.NaluStartCode4...)
+		s.spspps = append(s.spspps, s.curVps...)
+	}
+	s.spspps = append(s.spspps, avc.NaluStartCode4...)
+	s.spspps = append(s.spspps, s.curSps...)
+	s.spspps = append(s.spspps, avc.NaluStartCode4...)
+	s.spspps = append(s.spspps, s.curPps...)
+}
+
 func (s *Rtmp2MpegtsRemuxer) feedVideo(msg base.RtmpMsg) {
 	if len(msg.Payload) <= 5 {
 		Log.Warnf("[%s] rtmp msg too short, ignore. header=%+v, payload=%s", s.uk, msg.Header, hex.Dump(msg.Payload))
@@ -208,16 +226,25 @@ func (s *Rtmp2MpegtsRemuxer) feedVideo(msg base.RtmpMsg) {
 		if s.spspps, err = avc.SpsPpsSeqHeader2Annexb(msg.Payload); err != nil {
 			Log.Errorf("[%s] cache spspps failed. err=%+v", s.uk, err)
 		}
+		s.curVps = nil
+		if s.curSps, s.curPps, err = avc.ParseSpsPpsFromSeqHeader(msg.Payload); err != nil {
+			s.curSps, s.curPps = nil, nil
+		}
 		return
 	} else if msg.IsHevcKeySeqHeader() {
 		if msg.IsEnhanced() {
 			if s.spspps, err = hevc.VpsSpsPpsEnhancedSeqHeader2Annexb(msg.Payload); err != nil {
 				Log.Errorf("[%s] cache vpsspspps failed. err=%+v", s.uk, err)
 			}
+			s.curVps, s.curSps, s.curPps, err = hevc.ParseVpsSpsPpsFromEnhancedSeqHeader(msg.Payload)
 		} else {
 			if s.spspps, err = hevc.VpsSpsPpsSeqHeader2Annexb(msg.Payload); err != nil {
 				Log.Errorf("[%s] cache vpsspspps failed. err=%+v", s.uk, err)
 			}
+			s.curVps, s.curSps, s.curPps, err = hevc.ParseVpsSpsPpsFromSeqHeader(msg.Payload)
+		}
+		if err != nil {
+			s.curVps, s.curSps, s.curPps = nil, nil, nil
 		}
 
 		return
@@ -244,7 +271,6 @@ func (s *Rtmp2MpegtsRemuxer) feedVideo(msg base.RtmpMsg) {
 		return
 	}
 
-	var vps, sps, pps []byte
 	for _, nal := range nals {
 		var nalType uint8
 		switch codecId {
@@ -268,17 +294,14 @@ func (s *Rtmp2MpegtsRemuxer) feedVideo(msg base.RtmpMsg) {
 			if nalType == avc.NaluTypeAud {
 				continue
 			} else if nalType == avc.NaluTypeSps {
-				sps = nal
+				// 注意，sps、pps可能单独更新（比如流中只发一个新的pps），所以分别保存，任何一个更新都重新生成spspps，
+				// 否则单独更新的参数集永远到不了ts的消费者，之后的关键帧前面追加的还是旧的
+				s.curSps = append([]byte(nil), nal...)
+				s.rebuildSpspps(false)
 				continue
 			} else if nalType == avc.NaluTypePps {
-				pps = nal
-				if len(sps) != 0 && len(pps) != 0 {
-					s.spspps = s.spspps[0:0]
-					s.spspps = append(s.spspps, avc.NaluStartCode4...)
-					s.spspps = append(s.spspps, sps...)
-					s.spspps = append(s.spspps, avc.NaluStartCode4...)
-					s.spspps = append(s.spspps, pps...)
-				}
+				s.curPps = append([]byte(nil), nal...)
+				s.rebuildSpspps(false)
 				continue
 			}
 		} else if codecId == base.RtmpCodecIdHevc {
@@ -289,22 +312,16 @@ func (s *Rtmp2MpegtsRemuxer) feedVideo(msg base.RtmpMsg) {
 			if nalType == hevc.NaluTypeAud {
 				continue
 			} else if nalType == hevc.NaluTypeVps {
-				vps = nal
+				s.curVps = append([]byte(nil), nal...)
+				s.rebuildSpspps(true)
 				continue
 			} else if nalType == hevc.NaluTypeSps {
-				sps = nal
+				s.curSps = append([]byte(nil), nal...)
+				s.rebuildSpspps(true)
 				continue
 			} else if nalType == hevc.NaluTypePps {
-				pps = nal
-				if len(vps) != 0 && len(sps) != 0 && len(pps) != 0 {
-					s.spspps = s.spspps[0:0]
-					s.spspps = append(s.spspps, avc.NaluStartCode4...)
-					s.spspps = append(s.spspps, vps...)
-					s.spspps = append(s.spspps, avc.NaluStartCode4...)
-					s.spspps = append(s.spspps, sps...)
-					s.spspps = append(s.spspps, avc.NaluStartCode4...)
-					s.spspps = append(s.spspps, pps...)
-				}
+				s.curPps = append([]byte(nil), nal...)
+				s.rebuildSpspps(true)
 				continue
 			}
 		}
